@@ -84,6 +84,18 @@ func qq(f float64) string { return fval(f) }
 
 func shortF(f float64) string { return fmt.Sprintf("%g", f) }
 
+func isStatusShape(rw agent.VerifIngestRow) bool {
+	if rw.ValueSet || rw.Uniq != 0 || rw.Digest || rw.HostI != 0 || rw.HostS != "" {
+		return false
+	}
+	for i := 0; i < format.MaxTags; i++ {
+		if rw.STags[i] != "" || (i > 4 && rw.Tags[i] != 0) {
+			return false
+		}
+	}
+	return true
+}
+
 // ---------------------------------------------------------------- event grammar
 
 type tagSpec struct {
@@ -658,6 +670,13 @@ func runCase(o *vu.Out, r *vu.Rng, idx int, defect int) {
 		if rw.ValueSet {
 			ag = fmt.Sprintf("(OA %s %s %s %s)", qq(rw.Min), qq(rw.Max), qq(rw.Sum), qq(rw.SumSq))
 		}
+		// lossless abbreviation of an ingestion-status record in its usual shape (Corr.expand_row)
+		if isStatusShape(rw) {
+			rowT = append(rowT, fmt.Sprintf("OS %d %s %d %s %s %s %s %s %s %s %s", rw.Shard, vu.Z(int64(rw.Metric)), rw.Ts,
+				vu.Z(int64(rw.Tags[0])), vu.Z(int64(rw.Tags[1])), vu.Z(int64(rw.Tags[2])), vu.Z(int64(rw.Tags[3])), vu.Z(int64(rw.Tags[4])),
+				vu.Z(int64(rw.TopI)), segs([]byte(rw.TopS)), qq(rw.Count)))
+			continue
+		}
 		rowT = append(rowT, fmt.Sprintf("OR %d %s %d [%s] %s %s %s %s %s %s %d %s", rw.Shard, vu.Z(int64(rw.Metric)), rw.Ts, strings.Join(ks, ";"),
 			vu.Z(int64(rw.TopI)), segs([]byte(rw.TopS)), vu.Z(int64(rw.HostI)), segs([]byte(rw.HostS)), qq(rw.Count), ag, rw.Uniq, vu.B(rw.Digest)))
 	}
@@ -955,7 +974,11 @@ func main() {
 	n := flag.Int("n", 2000, "")
 	out := flag.String("out", "", "")
 	flag.Parse()
-	r := vu.NewRng(*seed)
+	// vu.Rng streams of neighbouring seeds are shifted copies of each other; scramble the seed first
+	z := *seed + 0x9E3779B97F4A7C15
+	z = (z ^ (z >> 30)) * 0xBF58476D1CE4E5B9
+	z = (z ^ (z >> 27)) * 0x94D049BB133111EB
+	r := vu.NewRng(z ^ (z >> 31))
 	o := vu.NewOut(*out)
 	defer o.Close()
 	replayFinding(o)
